@@ -430,7 +430,7 @@ Lemma region0_no_ties c cap : c17_region c = 0 -> In cap (k_caps c) ->
   forallb (fun b => no_ties (spec_acc c pin_cache b)) (k_binds c) = true.
 Proof.
   unfold c17_region. intros R H. destruct (k_caps c); [destruct H|].
-  destruct (forallb _ _); [reflexivity|discriminate].
+  destruct (forallb _ (k_binds c)); [reflexivity|discriminate].
 Qed.
 
 Lemma forallb_combine_map {A B} (f : A * B -> bool) (g : A -> B) l :
